@@ -323,7 +323,7 @@ func vDecodeCases(t *testing.T) {
 			runtime.ReadMemStats(&m0)
 			outs, consumed, maxAsk := vRunDecode(c)
 			runtime.ReadMemStats(&m1)
-			out.printf("dec %s outs=%s consumed=%s maxask=%d alloc=%d", c.id, strings.Join(outs, "|"), strings.Join(consumed, ","), maxAsk, m1.TotalAlloc-m0.TotalAlloc)
+			out.printf("dec %s outs=%s consumed=%s maxask=%d alloc=%d inflated=%s", c.id, strings.Join(outs, "|"), strings.Join(consumed, ","), maxAsk, m1.TotalAlloc-m0.TotalAlloc, vInflateStream(vUnhex(c.get("stream"))))
 		})
 	}
 }
